@@ -737,3 +737,204 @@ def ovf_stub(ovf_module):
             ovf_module.open = old_open
         else:
             del ovf_module.open
+
+
+# ----------------------------------------------------------------------------------------------------------------
+# VTK stub: a recorder grid.  Contract (VTK documentation of vtkRectilinearGrid / structured data): cell id =
+# i + nx*(j + ny*k) with cell (i,j,k) spanning [X[i],X[i+1]] x [Y[j],Y[j+1]] x [Z[k],Z[k+1]]; cell-data arrays are
+# indexed by cell id; a writer followed by the matching reader returns the same grid (binary and XML exactly; the ASCII
+# form only to ten significant digits -- checked natively).
+class VtkArray:
+    def __init__(self, data):
+        from .sarray import plain, symify
+
+        self.data = np.asarray(plain(symify(data)), dtype=object)
+        self.name = None
+
+    def SetName(self, name):
+        self.name = str(name)
+
+    def GetName(self):
+        return self.name
+
+    def GetNumberOfComponents(self):
+        return 1 if self.data.ndim == 1 else int(self.data.shape[1])
+
+    def GetNumberOfTuples(self):
+        return int(self.data.shape[0])
+
+
+class VtkCellData:
+    def __init__(self):
+        self.arrays = []
+        self.active = {}
+
+    def AddArray(self, a):
+        self.arrays.append(a)
+
+    def GetNumberOfArrays(self):
+        return len(self.arrays)
+
+    def GetArrayName(self, i):
+        return self.arrays[i].name
+
+    def GetArray(self, i):
+        if isinstance(i, str):
+            for a in self.arrays:
+                if a.name == i:
+                    return a
+            return None
+        return self.arrays[i]
+
+    def SetActiveVectors(self, name):
+        self.active["vectors"] = name
+
+    def SetActiveScalars(self, name):
+        self.active["scalars"] = name
+
+
+class VtkGrid:
+    def __init__(self):
+        self.dims = None
+        self.coords = [None, None, None]
+        self.cell_data = VtkCellData()
+
+    def SetDimensions(self, *d):
+        self.dims = tuple(int(x) for x in d)
+
+    def GetDimensions(self):
+        return self.dims
+
+    def SetXCoordinates(self, a):
+        self.coords[0] = a
+
+    def SetYCoordinates(self, a):
+        self.coords[1] = a
+
+    def SetZCoordinates(self, a):
+        self.coords[2] = a
+
+    def GetCellData(self):
+        return self.cell_data
+
+    def GetBounds(self):
+        out = []
+        for a in self.coords:
+            out += [a.data[0], a.data[-1]]
+        return tuple(out)
+
+    def GetNumberOfCells(self):
+        n = 1
+        for d in self.dims:
+            n *= max(d - 1, 1)
+        return n
+
+
+class _VtkNS:
+    """numpy_support"""
+
+    @staticmethod
+    def numpy_to_vtk(a, *args, **kw):
+        return VtkArray(a)
+
+    @staticmethod
+    def vtk_to_numpy(a):
+        from .sarray import has_sym, symarray
+
+        d = a.data
+        if has_sym(d):
+            return symarray(d)
+        return np.array(d.tolist())
+
+
+class _VtkIO:
+    def __init__(self, fs, kind, xml):
+        self.fs, self.kind, self.xml = fs, kind, xml
+        self.name = None
+        self.grid = None
+        self.filetype = None
+
+    def SetFileTypeToASCII(self):
+        self.filetype = "ascii"
+
+    def SetFileTypeToBinary(self):
+        self.filetype = "binary"
+
+    def SetFileName(self, n):
+        self.name = str(n)
+
+    def SetInputData(self, g):
+        self.grid = g
+
+    def Write(self):
+        self.fs.files[self.name] = dict(grid=self.grid, xml=self.xml, filetype=self.filetype)
+        return 1
+
+    def ReadAllVectorsOn(self):
+        pass
+
+    def ReadAllScalarsOn(self):
+        pass
+
+    def Update(self):
+        rec = self.fs.files[self.name]
+        if rec["xml"] != self.xml:
+            raise RuntimeError("VTK stub: reader does not match the writer's format")
+        self.grid = rec["grid"]
+
+    def GetOutput(self):
+        return self.grid
+
+
+class _VtkPathModule:
+    def __init__(self, fs, real_pathlib):
+        outer_fs = fs
+
+        class Path(real_pathlib.PurePosixPath):
+            def open(self, mode="r", encoding=None):
+                key = str(self)
+                if key not in outer_fs.files:
+                    raise FileNotFoundError(key)
+                first = b"<?xml version=\"1.0\"?>\n" if outer_fs.files[key]["xml"] else b"# vtk DataFile Version 5.1\n"
+
+                class H:
+                    def __enter__(s):
+                        return s
+
+                    def __exit__(s, *a):
+                        return False
+
+                    def readline(s):
+                        return first
+
+                return H()
+
+        self.Path = Path
+
+
+@contextlib.contextmanager
+def vtk_stub(field_module, vtk_module):
+    import pathlib as real_pathlib
+
+    fs = MemFS()
+    saved = dict(f_grid=field_module.vtkRectilinearGrid, f_vns=field_module.vns, v_vns=vtk_module.vns, v_r=vtk_module.vtkRectilinearGridReader,
+                 v_w=vtk_module.vtkRectilinearGridWriter, v_xr=vtk_module.vtkXMLRectilinearGridReader, v_xw=vtk_module.vtkXMLRectilinearGridWriter, v_p=vtk_module.pathlib)
+    field_module.vtkRectilinearGrid = VtkGrid
+    field_module.vns = _VtkNS
+    vtk_module.vns = _VtkNS
+    vtk_module.vtkRectilinearGridReader = lambda: _VtkIO(fs, "reader", False)
+    vtk_module.vtkRectilinearGridWriter = lambda: _VtkIO(fs, "writer", False)
+    vtk_module.vtkXMLRectilinearGridReader = lambda: _VtkIO(fs, "reader", True)
+    vtk_module.vtkXMLRectilinearGridWriter = lambda: _VtkIO(fs, "writer", True)
+    vtk_module.pathlib = _VtkPathModule(fs, real_pathlib)
+    try:
+        yield fs
+    finally:
+        field_module.vtkRectilinearGrid = saved["f_grid"]
+        field_module.vns = saved["f_vns"]
+        vtk_module.vns = saved["v_vns"]
+        vtk_module.vtkRectilinearGridReader = saved["v_r"]
+        vtk_module.vtkRectilinearGridWriter = saved["v_w"]
+        vtk_module.vtkXMLRectilinearGridReader = saved["v_xr"]
+        vtk_module.vtkXMLRectilinearGridWriter = saved["v_xw"]
+        vtk_module.pathlib = saved["v_p"]
